@@ -387,6 +387,14 @@ def worker(job):
         if tg.shared:
             head_api += ["S = [_.a + 2, _.b + 3, ConstVal(5)]", "T = [_.c + 1, ConstVal(7), _.a + 0]"]
             head_twin += ["S = [a + 2, b + 3, 5]", "T = [c + 1, 7, a + 0]"]
+        bystanders = {}
+        if rnd.random() < 0.4:
+            # plain Python objects kept in the context that no block touches: they must come out as they went in (same class, same value)
+            tg.kinds.add("plain-bystanders")
+            for nm, lit in rnd.sample([("pf", "0.1"), ("pn", "None"), ("ps", "'tag'"), ("pi", "7"), ("pg", "2.5"), ("pz", "0.0"), ("pb", "True")], rnd.randint(1, 4)):
+                bystanders[nm] = eval(lit)
+                head_api += ["_.%s = %s" % (nm, lit)]
+                head_twin += ["%s = %s" % (nm, lit)]
         implicit = rnd.random() < 0.25
         if implicit:
             # context found implicitly: a helper function whose own BranchingValues is called `__`, no ctx= arguments, and a
@@ -486,6 +494,9 @@ def worker(job):
                 ncmp += 1
                 if av != tns[name]:
                     bad = (name, "API %r, native %r" % (av, tns[name]))
+                    break
+                if name in bystanders and type(v) is not type(bystanders[name]):
+                    bad = (name, "a plain %s that no block touched came out as %s" % (type(bystanders[name]).__name__, type(v).__name__))
                     break
             for name in ("a", "b", "c") + tuple(tg.extra):
                 if name in tns and name not in ctx.vals and name in ("a", "b", "c"):
